@@ -16,7 +16,7 @@ import sys
 import tempfile
 import time
 
-PROPS = ["C%02d" % i for i in range(1, 18)]
+PROPS = ["C%02d" % i for i in list(range(1, 18)) + [19]]
 VERIF = os.environ.get("HSA_VERIF_DIR", "/verif")
 
 
